@@ -190,13 +190,20 @@ struct Acc {
     disc: Vec<(String, Value)>,
 }
 
+/// Number of alphabet symbols in an input (é is one symbol of two bytes).
+fn symbols(input: &[u8]) -> usize {
+    input.iter().filter(|&&b| b != 0xA9).count()
+}
+
 fn line_start_of(input: &[u8], n: u64) -> Option<(usize, usize)> {
     split_lines(input, b'\n').get(n as usize - 1).copied()
 }
 
 fn check_standard(input: &[u8], pat: &str, c: &Cfg9, re: &regex::bytes::Regex) -> Result<u64, String> {
     let f = PFlags { multiline: c.multiline, crlf: c.crlf, before: c.ctx as usize, after: c.ctx as usize, ..Default::default() };
-    let m = build_matcher(&[pat], &f)?;
+    // (a pattern the builder rejects under these flags — a literal \r under
+    // --crlf — has no output to judge)
+    let Ok(m) = build_matcher(&[pat], &f) else { return Ok(0) };
     let so = StdOpts { line_number: c.n, byte_offset: c.b, column: c.column, vimgrep: c.vimgrep, heading: c.heading, with_filename: c.with_filename, null: c.null, ..Default::default() };
     let out = run_mode(input, &m, &f, &Mode::Standard(so), false);
     if let Some(e) = out.error {
@@ -310,7 +317,7 @@ fn shown(line: &[u8], crlf: bool) -> Vec<u8> {
 }
 
 fn check_json(input: &[u8], pat: &str, f: &PFlags, re: &regex::bytes::Regex, acc: &mut Acc) -> Result<(), String> {
-    let m = build_matcher(&[pat], f)?;
+    let Ok(m) = build_matcher(&[pat], f) else { return Ok(()) };
     let out = run_mode(input, &m, f, &Mode::Json, false);
     if let Some(e) = out.error {
         return Err(format!("search error: {}", e));
@@ -476,6 +483,12 @@ pub fn run(args: &Args) -> ! {
             let Ok(re) = regex::bytes::RegexBuilder::new(pat).multi_line(true).crlf(c.crlf).build() else { return };
             let mut per = 0;
             for input in inputs.iter() {
+                // thorough tier: the additional patterns see the five-symbol
+                // inputs under every 4th flag set only (every shorter input
+                // under all of them)
+                if tier == Tier::Thorough && pi >= PATTERNS_QUICK.len() && pi < pats.len() && symbols(input) > 4 && input.len() < 1000 && ci % 4 != 0 {
+                    continue;
+                }
                 // quick tier: the longest inputs only for every 4th flag set
                 if tier == Tier::Quick && input.len() > 3 && input.len() < 1000 && ci % 4 != 0 {
                     continue;
